@@ -171,3 +171,78 @@ Proof. exact gen_keyspace_example. Qed.
 Print Assumptions C18_source_rec_calc_keyspace_is_model.
 Print Assumptions C18_source_calc_omen_keyspace_is_model.
 Print Assumptions C18_keyspace_translated.
+
+(* ---- the writer's side of C18: gen/OmenTrainerOut_gen.v is the translation of
+   save_omen_rules_to_disk (lib_trainer/omen/omen_file_output.py; harness/translate_omen_trainer.py,
+   redone on every run).  It equals the model OmenTrainer.save_rules; its probability loop is the
+   model's omen_prob, so C18_prob holds for what the translated writer puts into pcfg_omen_prob.txt.
+   These come LAST: the Require fails when the translation or its equality proofs no longer check. *)
+From Pcfg Require Import OmenTrainer OmenTrainerRt OmenTrainerGenProofsOut OmenTrainerGenInstOut.
+From PcfgGen Require Import OmenTrainerOut_gen.
+
+Theorem C18_source_save_omen_rules_is_model :
+  forall repr sc A T ks lc nvalid base pi fs, ttab_of A = Some T ->
+  py_save_omen_rules_to_disk repr sc A ks lc nvalid base pi fs = save_rules repr sc T ks lc nvalid base pi fs.
+Proof. exact gen_save_omen_rules_eq. Qed.
+
+(* the Counter of probabilities of the model of the writer is omen_prob of the model of C18_prob
+   (levels pairwise different: a Counter; N <> 0; lc is omen_levels_count) *)
+Theorem C18_source_prob_loop_is_model :
+  forall (cnt : nat -> nat) (lc : list (Z * Z)) nvalid ksl,
+  nvalid <> 0 -> NoDup (map fst ksl) -> (forall l, zcount lc (Z.of_nat l) = Z.of_nat (cnt l)) ->
+  prob_counter (zcounter_of ksl) lc (Z.of_nat nvalid) = TOk (zprob_of (omen_prob cnt nvalid ksl)).
+Proof. exact prob_counter_is_omen_prob. Qed.
+
+Theorem C18_prob_translated :
+  forall repr sc A T, ttab_of A = Some T -> wf_ttab T -> levels_le guesser_max_level T ->
+  forall c, reachable T c -> forall max_level maxks pws nvalid lc base pi fs fs',
+  let st := calc_keyspace T max_level maxks false false c in
+  nvalid <> 0 -> config_frame sc ->
+  (forall l, zcount lc (Z.of_nat l) = Z.of_nat (count_at (levels_count T pws) (Some l))) ->
+  py_save_omen_rules_to_disk repr sc A (zcounter_of (ks_done st)) lc (Z.of_nat nvalid) base pi fs = TOk (true, fs') ->
+  exists prob,
+    fs_get fs' (path_join (path_join base n_Omen) n_prob) = Some (zf_text repr (most_common_by PrimFloat.ltb (zprob_of prob))) /\
+    forall L p, In (L, p) prob -> (forall v, In (L, v) (ks_done st) -> (v <= maxks)%N) ->
+      let members := level_strings (gview T) (Z.of_nat L) in
+      p = PrimFloat.div
+            (PrimFloat.div (float_of_N (N.of_nat (length (filter (fun pw => existsb (ostr_eqb pw) members) pws))))
+                           (float_of_N (N.of_nat nvalid)))
+            (float_of_N (N.of_nat (length members))).
+Proof. exact gen_prob_translated. Qed.
+
+(* ... with the Counters as run_trainer.py passes them: omen_keyspace = what calc_omen_keyspace returned,
+   omen_levels_count = the tally of find_omen_level over the training passwords (key -1: not generable) *)
+Theorem C18_prob_translated_run :
+  forall repr sc A T, ttab_of A = Some T -> wf_ttab T -> levels_le guesser_max_level T ->
+  forall c, reachable T c -> forall max_level maxks pws nvalid base pi fs fs',
+  let st := calc_keyspace T max_level maxks false false c in
+  nvalid <> 0 -> config_frame sc ->
+  py_save_omen_rules_to_disk repr sc A (zcounter_of (ks_done st)) (zlevels_count (levels_count T pws)) (Z.of_nat nvalid) base pi fs
+    = TOk (true, fs') ->
+  exists prob,
+    fs_get fs' (path_join (path_join base n_Omen) n_prob) = Some (zf_text repr (most_common_by PrimFloat.ltb (zprob_of prob))) /\
+    forall L p, In (L, p) prob -> (forall v, In (L, v) (ks_done st) -> (v <= maxks)%N) ->
+      let members := level_strings (gview T) (Z.of_nat L) in
+      p = PrimFloat.div
+            (PrimFloat.div (float_of_N (N.of_nat (length (filter (fun pw => existsb (ostr_eqb pw) members) pws))))
+                           (float_of_N (N.of_nat nvalid)))
+            (float_of_N (N.of_nat (length members))).
+Proof. exact gen_prob_translated_run. Qed.
+
+Theorem C18_translated_writer_hypotheses_satisfiable :
+  ttab_of A_r9 = Some T_r9 /\ wf_ttab T_r9 /\ levels_le guesser_max_level T_r9 /\ reachable T_r9 [] /\
+  config_frame (fun d f _ fs => Some (fs_put fs (path_join d f) [])) /\
+  let pws := [[97; 98]; [97; 98; 97]; [98; 97; 98; 97]; [99; 99]]%N in
+  let st := calc_keyspace T_r9 18 10000000000 false false [] in
+  exists fs',
+    py_save_omen_rules_to_disk (fun _ => [63]%N) (fun d f _ fs => Some (fs_put fs (path_join d f) []))
+      A_r9 (zcounter_of (ks_done st)) (zlevels_count (levels_count T_r9 pws)) 4 [100]%N (mk_pinfo [] 2 [97; 98]%N) [] = TOk (true, fs') /\
+    zlevels_count (levels_count T_r9 pws) = [(1, 1); (10, 2); (-1, 1)]%Z /\
+    fs_get fs' (path_join (path_join [100]%N n_Omen) n_keyspace) <> None /\
+    exists prob, prob_counter (zcounter_of (ks_done st)) (zlevels_count (levels_count T_r9 pws)) 4 = TOk prob /\ length prob = 3.
+Proof. exact gen_prob_example. Qed.
+
+Print Assumptions C18_source_save_omen_rules_is_model.
+Print Assumptions C18_source_prob_loop_is_model.
+Print Assumptions C18_prob_translated.
+Print Assumptions C18_prob_translated_run.
